@@ -18,7 +18,21 @@ PKG = "pipefunc"
 
 
 class AnalysisError(Exception):
-    """The analysis itself could not be carried out (exit code 2, never a silent pass)."""
+    """The analysis could not be carried out.
+
+    `fatal` (a public anchor - part of the API the property is stated about - is gone): the check exits 2.
+    Otherwise (a private helper or an internal construct was renamed or restructured) the rule that needed it abstains:
+    `Ctx.run` turns the error into an UNDECIDED obligation, which is printed and counted but is not an alarm.
+    """
+
+    def __init__(self, msg: str, fatal: bool = False) -> None:
+        super().__init__(msg)
+        self.fatal = fatal
+
+
+def _public(name: str) -> bool:
+    last = name.rsplit(".", 1)[-1]
+    return not last.startswith("_") or (last.startswith("__") and last.endswith("__"))
 
 
 @dataclass
@@ -77,7 +91,7 @@ class _Methods(dict):
     owner = "?"
 
     def __missing__(self, key: str):
-        raise AnalysisError(f"anchor method `{self.owner}.{key}` not found")
+        raise AnalysisError(f"anchor method `{self.owner}.{key}` not found", fatal=_public(key))
 
 
 @dataclass
@@ -285,7 +299,7 @@ class Program:
 
     def func(self, qualname: str) -> FuncInfo:
         if qualname not in self.functions:
-            raise AnalysisError(f"anchor function `{qualname}` not found")
+            raise AnalysisError(f"anchor function `{qualname}` not found", fatal=_public(qualname))
         fi = self.functions[qualname]
         self.consulted.add(fi.module.name)
         return fi
@@ -298,7 +312,7 @@ class Program:
 
     def cls(self, qualname: str) -> ClassInfo:
         if qualname not in self.classes:
-            raise AnalysisError(f"anchor class `{qualname}` not found")
+            raise AnalysisError(f"anchor class `{qualname}` not found", fatal=_public(qualname))
         ci = self.classes[qualname]
         self.consulted.add(ci.module.name)
         return ci
